@@ -14,11 +14,48 @@ From HV Require Import Base.Prelude C19.Model C19.Proofs.
 (** The tree as it is: for every component, every previous state and EVERY
     input (any list of PEM blocks with any parser answers, any chain
     verification answers, any configured key id, missing file) the process
-    survives, and unless the reload succeeded the previous state stays in
-    effect.  No guard. *)
+    survives, and unless the load succeeded the previous state stays in
+    effect.  No guard.  (Whether a PARTIAL file may load at all is the next
+    two theorems.) *)
 Theorem C19_reload_total : forall c st i, spec_reload_ok st (on_changed c all_fixes st i).
 Proof. exact reload_total_now. Qed.
 Print Assumptions C19_reload_total.
+
+(** "empty, partial … key-store files (also when observed half-written) … result in a rejected
+    reload": a file whose last block is cut leaves undecodable bytes behind its last complete
+    block ([i_trailing]).  Outside the guard of C19-F10 such a file is not loaded; with the
+    candidate repair it never is, and the state is kept. *)
+Theorem C19_partial_rejected_guarded : forall c f st i,
+  guard_F10 c f i = false -> spec_partial_rejected i (on_changed c f st i).
+Proof. exact partial_rejected. Qed.
+Print Assumptions C19_partial_rejected_guarded.
+
+Theorem C19_partial_rejected_fixed : forall c f st i,
+  fx10 f = true -> i_trailing i = true -> on_changed c f st i = Kept st.
+Proof. exact partial_rejected_fixed. Qed.
+Print Assumptions C19_partial_rejected_fixed.
+
+Theorem C19_F10_refuted : exists c i st', i_trailing i = true /\ guard_F10 c no_fixes i = true /\
+  on_changed c no_fixes st0 i = Reloaded st'.
+Proof. exact F10_refuted. Qed.
+Print Assumptions C19_F10_refuted.
+
+(** "None of them … stops a background watcher": after ANY sequence of file contents the
+    listener is alive; contents that do not load change nothing; and after any number of bad
+    contents a good one is in effect (bad, bad, …, good). *)
+Theorem C19_reload_run_alive : forall c st is, exists st', reload_run c all_fixes st is = Alive st'.
+Proof. exact reload_run_alive_now. Qed.
+Print Assumptions C19_reload_run_alive.
+
+Theorem C19_reload_run_all_rejected : forall c f st is,
+  Forall (fun i => load c f i = Err) is -> reload_run c f st is = Alive st.
+Proof. exact reload_run_all_rejected. Qed.
+Print Assumptions C19_reload_run_all_rejected.
+
+Theorem C19_reload_run_last_good : forall c st bad i st',
+  load c all_fixes i = Ok st' -> reload_run c all_fixes st (bad ++ [i]) = Alive st'.
+Proof. exact reload_run_last_good_now. Qed.
+Print Assumptions C19_reload_run_last_good.
 
 (** the same for any tree that has at least the four key-store repairs *)
 Theorem C19_reload_total_any_fixed : forall c f st i,
@@ -83,15 +120,6 @@ Theorem C19_size_tables_agree : forall a z,
 Proof. exact size_tables_agree. Qed.
 Print Assumptions C19_size_tables_agree.
 
-Theorem C19_size_ok_exact : forall a z,
-  size_ok a z = true <->
-  match a with
-  | RSA => z = 2048%Z \/ z = 3072%Z \/ z = 4096%Z
-  | ECDSA => z = 256%Z \/ z = 384%Z \/ z = 521%Z
-  end.
-Proof. exact size_ok_exact. Qed.
-Print Assumptions C19_size_ok_exact.
-
 Theorem C19_F1_pinned_refuted : exists c i, guard_F1 c no_fixes i = true /\ ~ spec_reload_ok st0 (on_changed c no_fixes st0 i).
 Proof. exact F1_refuted. Qed.
 Print Assumptions C19_F1_pinned_refuted.
@@ -115,6 +143,17 @@ Theorem C19_truststore_total : forall strict i s, trust_store all_fixes strict i
 Proof. exact trust_store_total_now. Qed.
 Print Assumptions C19_truststore_total.
 
+(** an empty or partial trust store is not accepted once C19-F10 is repaired; the tree as it is accepts it
+    silently (with the certificates decoded so far) *)
+Theorem C19_truststore_partial_rejected_fixed : forall f strict i l,
+  fx10 f = true -> (ts_blocks i = [] \/ ts_trailing i = true) -> trust_store f strict i <> Ok l.
+Proof. exact trust_store_partial_rejected_fixed. Qed.
+Print Assumptions C19_truststore_partial_rejected_fixed.
+
+Theorem C19_F10_truststore_refuted : exists f i l, fx7 f = true /\ fx10 f = false /\ ts_blocks i = [] /\ trust_store f true i = Ok l.
+Proof. exact F10_truststore_refuted. Qed.
+Print Assumptions C19_F10_truststore_refuted.
+
 (** for any set of repairs NewTrustStoreFromPEMBytes panics exactly on the inputs of C19-F7 *)
 Theorem C19_truststore_panic_iff : forall f strict i s,
   trust_store f strict i = Panic s <-> (s = SNilBlock /\ guard_F7 f strict i = true).
@@ -127,16 +166,15 @@ Print Assumptions C19_F7_pinned_refuted.
 
 (** * Rule sets *)
 
-(** The tree as it is, for every rule-set event: bytes rejected by the decoder,
-    a decoder panic (caught by the repaired parser), or any decoded rule set
-    (any number of rules, any steps, ANY value trees under any key), both modes,
-    with or without default rule, every previous state: if the collaborators
-    taken as data (mechanism factory, matcher construction, Rule.Hash) do not
-    panic themselves, the provider goroutine survives and a rejected rule set
-    leaves the loaded rules as they were.  No typing condition, no guard. *)
+(** The tree as it is, for every rule-set event whose decoding did not panic and
+    whose collaborators taken as data (mechanism factory, matcher construction,
+    Rule.Hash) did not panic ([ev_oracle_total]; a panic of the decoder is an exit —
+    there is no recover around it): bytes rejected by the decoder or any decoded rule
+    set (any number of rules, any steps, ANY value trees under any key), both modes,
+    with or without default rule, every previous state: the provider goroutine survives
+    and a rejected rule set leaves the loaded rules as they were.  No typing condition. *)
 Theorem C19_ruleset_total : forall proxy def st e,
-  (forall rs, ev_parse e = PParsed rs -> forallb oracle_total_rule rs = true) ->
-  spec_rs_ok st (process all_fixes proxy def st e).
+  ev_oracle_total all_fixes e = true -> spec_rs_ok st (process all_fixes proxy def st e).
 Proof. exact ruleset_total_now. Qed.
 Print Assumptions C19_ruleset_total.
 
@@ -146,13 +184,6 @@ Theorem C19_ruleset_total_typed : forall f proxy def st e,
   spec_rs_ok st (process f proxy def st e).
 Proof. exact ruleset_total. Qed.
 Print Assumptions C19_ruleset_total_typed.
-
-(** … and so do the exact guards of the two findings *)
-Theorem C19_ruleset_total_guarded : forall f proxy def st e,
-  guard_F3 f proxy def e = false -> guard_F8 f proxy def e = false ->
-  spec_rs_ok st (process f proxy def st e).
-Proof. exact ruleset_total_guard. Qed.
-Print Assumptions C19_ruleset_total_guarded.
 
 Theorem C19_F3_only_ill_typed : forall f proxy def e,
   guard_F3 f proxy def e = true -> fx3 f = false /\ ev_typed e = false.
@@ -190,6 +221,30 @@ Theorem C19_fs_total : forall st e, spec_fs_ok st (fs_changed all_fixes st e).
 Proof. exact fs_total_now. Qed.
 Print Assumptions C19_fs_total.
 
+(** the watch loop survives any sequence of events, and a parsable content after any events is loaded *)
+Theorem C19_fs_run_alive : forall st es, exists st', fs_run all_fixes st es = Alive st'.
+Proof. exact fs_run_alive_now. Qed.
+Print Assumptions C19_fs_run_alive.
+
+Theorem C19_fs_run_last_good : forall st es e h,
+  op_class all_fixes (fe_bits e) = FsWrite -> fe_read e = RdParsed h -> fe_stat_ok e = true -> fe_proc_ok e = true ->
+  fs_run all_fixes st (es ++ [e]) = Alive (Some h).
+Proof. exact fs_run_last_good_now. Qed.
+Print Assumptions C19_fs_run_last_good.
+
+(** "truncations at every offset … the previously loaded state stays in effect" fails at offset 0 (C19-F11, open,
+    by design of the provider): an event that finds the file EMPTY keeps the stored state only outside the guard *)
+Theorem C19_fs_empty_keeps_state_guarded : forall f st e,
+  fx18 f = true -> guard_F11 f st e = false -> fe_read e = RdEmpty ->
+  exists x, fs_changed f st e = FsDone x /\ fr_state x = st.
+Proof. exact fs_empty_keeps_state. Qed.
+Print Assumptions C19_fs_empty_keeps_state_guarded.
+
+Theorem C19_F11_refuted : exists e, guard_F11 all_fixes (Some 1) e = true /\ fe_read e = RdEmpty /\
+  exists x, fs_changed all_fixes (Some 1) e = FsDone x /\ fr_state x <> Some 1.
+Proof. exact F11_refuted. Qed.
+Print Assumptions C19_F11_refuted.
+
 Theorem C19_fs_total_guarded : forall f st e, guard_F4 f e = false -> spec_fs_ok st (fs_changed f st e).
 Proof. exact fs_total. Qed.
 Print Assumptions C19_fs_total_guarded.
@@ -203,12 +258,14 @@ Theorem C19_F4_pinned_refuted : exists e, guard_F4 no_fixes e = true /\ ~ spec_f
 Proof. exact F4_refuted. Qed.
 Print Assumptions C19_F4_pinned_refuted.
 
-(** * Request goroutines: a panic (e.g. the composite extractor on an empty
-    strategy list, which panics exactly then) is answered by the recovery
-    middleware, never with a success status *)
-Theorem C19_request_panic_is_non_success : forall h,
-  (exists status, recovery_mw h = status) /\ (forall k, h = Panicked k -> success (recovery_mw h) = false).
-Proof. exact request_panic_is_non_success. Qed.
+(** * Request goroutines: a panic BEFORE anything was written (e.g. the composite extractor on an
+    empty strategy list, which panics exactly then) is answered by the recovery middleware, never
+    with a success status.  (A panic after the header was sent keeps that status: [PanickedAfter].
+    That the middleware produces a response at all is an observation of the request stream, not
+    a theorem: [recovery_mw] is a table.) *)
+Theorem C19_request_panic_is_non_success : forall h k,
+  h = Panicked k -> success (recovery_mw h) = false.
+Proof. exact request_panic_non_success. Qed.
 Print Assumptions C19_request_panic_is_non_success.
 
 Theorem C19_composite_extract_panic_iff : forall l s,
